@@ -421,6 +421,11 @@ class TermEval:
                     if tb == nxt:
                         chosen = v
                         break
+                # the very same computed value (a local copied around, e.g. the bool a helper returned) tested twice cannot come out
+                # differently: such paths are infeasible (identity of the term object = no re-evaluation in between)
+                for (d0_, ch0_, _b0) in res.conds:
+                    if d0_ is d and ch0_ != chosen and isinstance(d, tuple) and d and d[0] in ("cmp", "not", "call"):
+                        res.infeasible = True
                 res.conds.append((d, chosen, bb))
                 # a test on a constant (typically a constant argument of an inlined helper) decides the branch: other paths are infeasible
                 cv = self._const_discr(d)
